@@ -154,6 +154,44 @@ theorem remove_shrinks_any (s : TdfSt) (t : Nat) (now : Int) (pos : Nat) (hpos :
   simp only [hpos]
   exact remove_len _ _ _ _ h0 h1 hin hfit
 
+/-! the ADD half on any state -/
+
+theorem writeEntries_length (v : Bytes) (start : Nat) (es : List Entry) (henc : ∀ e ∈ es, e.enc.length = 288)
+    (hfit : slotPos (start + es.length) ≤ v.length) : (writeEntries v start es).length = v.length := by
+  induction es generalizing v start with
+  | nil => rfl
+  | cons e es ih =>
+    have he := henc e (by simp)
+    have h1 : (writeAt v (slotPos start) e.enc).length = v.length := by
+      rw [writeAt_length, he]; simp only [slotPos, List.length_cons] at hfit ⊢; omega
+    unfold writeEntries
+    rw [ih _ _ (fun x hx => henc x (by simp [hx])) (by rw [h1]; simp only [List.length_cons] at hfit; rw [show start + 1 + es.length = start + (es.length + 1) by omega]; exact hfit)]
+    exact h1
+
+/-- ANY state — table in any order, gaps between the blocks —: when the first unused slot carries the end of the file, the jump table lies
+    inside the file and every entry of the new table has its 288 bytes, an accepted `add_block` makes the file longer by exactly the bytes
+    the block wrote. (The compact case, with `nBytes` for the written bytes, is `add_grows`.) -/
+theorem add_grows_any (s : TdfSt) (b : BlkArg) (c : Str) (now : Int) (pos : Nat) (pl : Bytes)
+    (hd : hasType b.typ s.entries = false) (hf : firstUnused s.entries = some pos) (hchk : checkArg b c now = .ok pl)
+    (hh : (s.entries.drop (pos + 1)).any (fun e => e.typ != 0) = false)
+    (henc : ∀ e ∈ (addBlock s b c now).1.entries, e.enc.length = 288)
+    (hfit : slotPos s.entries.length ≤ s.view.length)
+    (heof : (s.entries.getD pos unusedEntry).off.toNat = s.view.length) :
+    (addBlock s b c now).1.view.length = s.view.length + pl.length := by
+  rw [addBlock_entries s b c now pos pl hd hf hchk hh] at henc
+  have hlt := C03.findIdxBy_lt _ _ _ hf
+  unfold addBlock
+  simp only [hd, hf, hchk, hh, Bool.false_eq_true, if_false]
+  rw [writeAt_length, heof]
+  have he := henc _ (List.mem_append_right _ List.mem_cons_self)
+  have h1 : (writeAt s.view (slotPos pos) (Entry.enc ⟨b.typ, b.fmt, (s.entries.getD pos unusedEntry).off, b.size, b.cdate, b.mdate, now, c⟩)).length
+      = s.view.length := by
+    rw [writeAt_length, he]; simp only [slotPos] at hfit ⊢; omega
+  rw [writeEntries_length _ _ _ (fun x hx => henc x (List.mem_append_right _ (List.mem_cons_of_mem _ hx))) (by
+    rw [h1]; simp only [List.length_map, List.length_drop]
+    rw [show pos + 1 + (s.entries.length - (pos + 1)) = s.entries.length by omega]; exact hfit)]
+  rw [h1]; omega
+
 /-- non-vacuity of the byte motion: 10 bytes, remove [3,5) -/
 example : (truncateAt (writeAt [0,1,2,3,4,5,6,7,8,9] 3 (([0,1,2,3,4,5,6,7,8,9] : Bytes).drop 5)) (3 + 5)) = [0,1,2,5,6,7,8,9] := by decide
 
